@@ -329,11 +329,22 @@ Theorem C13_inputs_reaching_from_inp_are_recorded_and_known :
     /\ forallb (fun e => negb (fs_is_unknown (snd e))) inps = true.
 Proof. exact observed_inps_recorded_and_known. Qed.
 
+(* inp_unchanged H d e: FileHash.refreshed returns (does not raise) a hash that compares equal to
+   the recorded one.  Anything else -- changed, vanished, never present, or no longer hashable --
+   keeps the step away from from_inp. *)
 Theorem C13_changed_input_never_reaches_from_inp :
   forall (H : str -> str) (d : disk) (olds : list (str * fhash)) (e : str * fhash),
-    In e (sort_keys olds) -> fh_eqb (refreshed H (snd e) (d (fst e))) (snd e) = false ->
-    observed_inps H d olds = None.
+    In e (sort_keys olds) -> inp_unchanged H d e = false -> observed_inps H d olds = None.
 Proof. exact changed_input_is_reported. Qed.
+
+(* an input that was replaced by a directory or lost its read permission (os.stat works, hashing
+   raises) never reaches from_inp as unchanged, unless all four stat fields are the recorded ones
+   (then refreshed does not touch the content at all) *)
+Theorem C13_unreadable_input_never_reaches_from_inp :
+  forall (H : str -> str) (d : disk) (olds : list (str * fhash)) (e : str * fhash) (st : fstat),
+    In e (sort_keys olds) -> d (fst e) = DUnreadable st -> refreshed_same (snd e) st = false ->
+    observed_inps H d olds = None.
+Proof. exact unreadable_input_is_reported. Qed.
 
 (* The full statement for the skip decision: "unchanged" only for the recorded configuration,
    modulo SHA-256 collisions on the two pairs of pre-images compared.  False today for the output
@@ -343,8 +354,8 @@ Definition C13_skip_full : Prop :=
     full_step_hash H s0 d0 io0 oo0 = Some (rec, rs) ->
     forall (s : syscfg) (d : disk) (io oo : list (str * fhash)) (h : shash),
       try_skip H rec s d io oo = Some (true, h) ->
-      forall inps, observed_inps H d io = Some inps ->
-      let now := with_outs (with_inps s inps) (observed_outs H d oo) in
+      forall inps outs, observed_inps H d io = Some inps -> observed_outs H d oo = Some outs ->
+      let now := with_outs (with_inps s inps) outs in
       sys_wf rs = true -> sys_wf now = true ->
       wf_files (sys_outs rs) = true -> wf_files (sys_outs now) = true ->
       no_collision H (inp_preimage (site_inp_cfg rs)) (inp_preimage (site_inp_cfg now)) ->
@@ -363,8 +374,8 @@ Theorem C13_skip_unchanged_sound_partial :
     full_step_hash H s0 d0 io0 oo0 = Some (rec, rs) ->
     forall (s : syscfg) (d : disk) (io oo : list (str * fhash)) (h : shash),
       try_skip H rec s d io oo = Some (true, h) ->
-      forall inps, observed_inps H d io = Some inps ->
-      let now := with_outs (with_inps s inps) (observed_outs H d oo) in
+      forall inps outs, observed_inps H d io = Some inps -> observed_outs H d oo = Some outs ->
+      let now := with_outs (with_inps s inps) outs in
       sys_wf rs = true -> sys_wf now = true ->
       wf_files (sys_outs rs) = true -> wf_files (sys_outs now) = true ->
       digests_ok Lookahead (sys_outs rs) = true -> digests_ok Lookahead (sys_outs now) = true ->
@@ -391,9 +402,9 @@ Proof. intros K H. exact (try_skip_inputs_sound H K). Qed.
 Theorem C13_skip_unchanged_complete :
   forall (H : str -> str) (s0 : syscfg) (d0 : disk) (io0 oo0 : list (str * fhash)) (rec : shash) (rs : syscfg),
     full_step_hash H s0 d0 io0 oo0 = Some (rec, rs) ->
-    forall (s : syscfg) (d : disk) (io oo : list (str * fhash)) inps,
-      observed_inps H d io = Some inps ->
-      let now := with_outs (with_inps s inps) (observed_outs H d oo) in
+    forall (s : syscfg) (d : disk) (io oo : list (str * fhash)) inps outs,
+      observed_inps H d io = Some inps -> observed_outs H d oo = Some outs ->
+      let now := with_outs (with_inps s inps) outs in
       sys_wf rs = true -> nodup_keys (sys_outs rs) = true ->
       sys_equiv rs now -> sys_out_equiv rs now ->
       try_skip H rec s d io oo = Some (true, rec).
@@ -494,14 +505,18 @@ Qed.
 (* skip decision: the premise kw_ovr_is_str = false holds on the current tree, and the theorem is
    not vacuous: with H := the identity on pre-images (collision-free), a step recorded with the
    input a.c present and then checked again with the same disk is skipped; with FLAGS undefined
-   instead of empty it is not. *)
+   instead of empty it is not; with the input gone or replaced by a directory the step fails early
+   (compute_inp_hashes reports it in `messages`). *)
 Example C13_example_premise : kw_ovr_is_str = false.
 Proof. vm_compute. reflexivity. Qed.
 
 Definition ex_H : str -> str := fun x => x.
 Definition ex_old : fhash := mk_fhash ex_digest2 33261 7 0 42.
 Definition ex_disk : disk :=
-  fun p => if str_eqb p [97;46;99] then Some (mk_fstat 33261 7 0 42, []) else None.
+  fun p => if str_eqb p [97;46;99] then DFile (mk_fstat 33261 7 0 42) [] else DMissing.
+(* a.c replaced by a directory (mode 0o40755, other inode) *)
+Definition ex_disk_dir : disk :=
+  fun p => if str_eqb p [97;46;99] then DUnreadable (mk_fstat 16877 9 4096 43) else DMissing.
 Definition ex_io : list (str * fhash) := [ ([97;46;99], ex_old) ].
 Definition ex_oo : list (str * fhash) := [ ([111;117;116], fh_unknown) ].
 
@@ -512,7 +527,9 @@ Example C13_example_skip :
       /\ digests_ok Lookahead (sys_outs rs) = true
       /\ option_map fst (try_skip ex_H rec ex_sys_empty ex_disk ex_io ex_oo) = Some true
       /\ option_map fst (try_skip ex_H rec ex_sys_unset ex_disk ex_io ex_oo) = Some false
-      /\ try_skip ex_H rec ex_sys_empty (fun _ => None) ex_io ex_oo = None
+      /\ try_skip ex_H rec ex_sys_empty (fun _ => DMissing) ex_io ex_oo = None
+      /\ try_skip ex_H rec ex_sys_empty ex_disk_dir ex_io ex_oo = None
+      /\ option_map fst (compute_inp_hashes ex_H ex_disk_dir ex_io) = Some true
   | None => False
   end.
 Proof. vm_compute. repeat split; reflexivity. Qed.
